@@ -38,11 +38,13 @@ M(t) == LET a == t.arch IN
         [n \in SearchLayers(a) |-> IF LRec(t, n).mask_ok THEN Pat(LRec(t, n).mask) ELSE AllTrue(Ch(a, n))]
 
 (* ----------------------------- known findings -------------------------- *)
-\* signature of F67 (trace-dependent): a 'same'-padded (neither causal nor un-padded) Conv1d whose time mask pruned a tap
-KF_SamePadPruned(t) ==
+\* C01 covers receptive-field / dilation pruning "when the layer is causally (left-)padded": a scenario in which a
+\* Conv1d that is NOT causally padded ('same' padding, explicit symmetric pad, un-padded) lost a tap is outside C01's
+\* domain (MaskAlgebraMC_patterns_same shows why: a re-centred smaller kernel reads other samples)
+NonCausalPruned(t) ==
     t.arch.dim = 1 /\ \E i \in DOMAIN t.L :
         LET r == t.L[i]  nd == Nd(t.arch, r.n) IN
-        nd.op = "conv" /\ ~nd.causal /\ ~nd.valid /\ r.t /\ \E j \in DOMAIN r.tmask : r.tmask[j] = 0
+        nd.op = "conv" /\ ~nd.causal /\ r.t /\ \E j \in DOMAIN r.tmask : r.tmask[j] = 0
 Known(t) ==
     LET a == t.arch IN
     IF KF_Reuse(a) THEN "known:F09:a searchable layer is invoked at two call sites (one mask / one input calculator per layer object)"
@@ -53,7 +55,6 @@ Known(t) ==
     ELSE IF KF_NonZeroOp(a) THEN "known:F29:sigmoid (an op of plinio's features-propagating list) maps the exact zeros of a pruned channel to 1/2: the consumer still reads that channel in the masked network, export() removes it"
     ELSE IF KF_CatIntoOutput(a) THEN "known:F25:a channel concat feeds the network output; its prunable parts are not frozen, the exported output width changes"
     ELSE IF KF_MixedWidthGroup(a) THEN "known:F24:producers of different widths (conv->flatten and linear) meet in one residual add and share one masker"
-    ELSE IF KF_SamePadPruned(t) THEN "known:F67:a Conv1d declared with padding='same' lost a tap: the masked kernel keeps its trailing taps inside the original padding, the exported layer re-centres the smaller kernel (shifted output)"
     ELSE ""
 
 Fail(t, clause) == IF Known(t) # "" THEN Known(t) ELSE clause
@@ -99,7 +100,12 @@ C01Layer(t, n) ==
               THEN "C01.time layer " \o ToString(n) \o ": exported taps " \o ToString(e.taps) \o " k=" \o ToString(e.k)
                        \o " dil=" \o ToString(e.dil) \o " pad=" \o ToString(e.pad) \o " do not read the samples of the kept taps (K="
                        \o ToString(r.K) \o ", d0=" \o ToString(r.d0) \o ")"
-         ELSE IF r.t /\ a.dim = 1 /\ ~Nd(a, n).causal /\ ~Nd(a, n).valid /\ ~MA!TermsEqualSameObs(r.K, r.d0, e.taps, e.k, e.dil)
+         ELSE IF r.t /\ a.dim = 1 /\ Nd(a, n).sym /\
+                 (e.pad = <<>> \/ ~MA!TermsEqualPadObs(r.K, r.d0, ((r.K - 1) * r.d0) \div 2, e.taps, e.k, e.dil, e.pad[1]))
+              THEN "C01.time-pad layer " \o ToString(n) \o ": exported taps " \o ToString(e.taps) \o " dil=" \o ToString(e.dil)
+                       \o " behind the exported explicit padding " \o ToString(e.pad) \o " do not read the samples of the kept taps"
+         ELSE IF r.t /\ a.dim = 1 /\ ~Nd(a, n).causal /\ ~Nd(a, n).valid /\ ~Nd(a, n).sym
+                 /\ ~MA!TermsEqualSameObs(r.K, r.d0, e.taps, e.k, e.dil)
               THEN "C01.time-same layer " \o ToString(n) \o ": exported taps " \o ToString(e.taps) \o " k=" \o ToString(e.k)
                        \o " dil=" \o ToString(e.dil) \o " with padding='same' do not read the samples of the kept taps (K="
                        \o ToString(r.K) \o ", d0=" \o ToString(r.d0) \o ")"
@@ -211,14 +217,17 @@ CheckProps(t) ==
                             ExportRuns(t, "C09")>>)
                ELSE "ok"
         v08 == IF t.props.C08 THEN Chain(<<ExportRuns(t, "C08"), Walk(t, "C08", 1)>>) ELSE "ok"
-        v01 == IF t.props.C01
+        v01 == IF t.props.C01 /\ ~NonCausalPruned(t)
                THEN Chain(<<ExportRuns(t, "C01"), Walk(t, "C01", 1),
                             IF t.E.out_equal THEN "ok" ELSE "C01.output: exported network and masked network differ (rel. diff e-12: "
                                                                 \o ToString(t.E.diff) \o ")">>)
                ELSE "ok"
         v04 == IF t.props.C04 THEN Chain(<<ExportRuns(t, "C04"), C04Costs(t, 1)>>) ELSE "ok"
         v   == Chain(<<v09, v08, v01, v04>>)
-    IN  IF v # "ok" THEN Fail(t, v) ELSE Walk(t, "drift", 1)
+    IN  IF v # "ok" THEN Fail(t, v)
+        ELSE IF t.props.C01 /\ NonCausalPruned(t)
+             THEN "outside:C01 covers rf/dilation pruning of causally padded Conv1d layers only; a non-causally padded layer lost a tap"
+        ELSE Walk(t, "drift", 1)
 
 Init == tid \in 1..Len(Traces) /\ verdict = CheckProps(Traces[tid])
 Next == UNCHANGED <<tid, verdict>>
